@@ -928,6 +928,9 @@ func sliceDischarge(c *Ctx, s *ssa.Slice) (ok bool, why string, trivial bool) {
 			return false, "slice " + eng.Short(s.String()) + ": " + why, false
 		}
 	}
+	if ok, why := c.readnUpperOK(s); !ok {
+		return false, "slice " + eng.Short(s.String()) + ": " + why, false
+	}
 	return true, "every non-constant leaf of the bounds is a trusted size, a guarded length or the byte count of a read into this buffer (D1-D4)||", false
 }
 
